@@ -161,7 +161,7 @@ func getTokenIDAndSubjectForRevocation(ctx context.Context, userinfoProvider Use
 
 	tokenIDSubject, err := userinfoProvider.Crypto().Decrypt(accessToken)
 	if err == nil {
-		splitToken := strings.Split(tokenIDSubject, ":")
+		splitToken := strings.SplitN(tokenIDSubject, ":", 2)
 		if len(splitToken) != 2 {
 			return "", "", false
 		}
